@@ -2278,7 +2278,7 @@ func (ev *Evaluator) native(pos token.Pos, fn *types.Func, recv Value, args []Va
 		}
 		return K(1), true
 	case "runtime.NumCPU":
-		if !ev.Pipeline {
+		if !ev.Pipeline && ev.NumCPU <= 0 {
 			return nil, false
 		}
 		return K(int64(ev.NumCPU)), true
